@@ -22,3 +22,75 @@ UNITS = [
                       'strcmp returns a value whose sign is the order of the two names (C standard), the order is a strict total order',
                       MEM]),
 ]
+
+UNITS.append(dict(name='C20.alloc', props=['C20'], kind='B', route='plain', entry='harness',
+     tus=[dict(file=OT, include_as='VERIF_TU')], harness='harness/c20_alloc.c', unwind=10, timeout=300, expect_s=5,
+     bounds={'name_bytes': 7, 'note': 'strlen/memcpy of the CBMC library unwound; the functions themselves are loop-free'},
+     must_have=['new node is named like the argument'],
+     functions=[dict(name='allocate_subtree_object', file=OT, status='bounded', contract='NULL or fresh node named like the argument (assumed in C20.find)'),
+                dict(name='_dbus_object_subtree_new', file=OT, status='bounded', contract='fields initialised: no parent, no children, refcount 1, not fallback, handler fields as given')],
+     assumptions=[MEM]))
+
+UNITS.append(dict(name='C20.register', props=['C20'], kind='P', route='stub', entry='harness',
+     tus=[dict(file=OT, include_as='VERIF_TU')], harness='harness/c20_register.c', unwindset=['str_is.0:50'],
+     replace_calls={'flatten_path': 'verif_stub_flatten_path', 'dbus_set_error': 'verif_stub_dbus_set_error'},
+     timeout=300, expect_s=5, must_have=['post1 handler', 'post2 refusal changes no field', 'post3 an occupied path'],
+     functions=[dict(name='_dbus_object_tree_register', file=OT, status='enforced', contract='occupied => FALSE + ObjectPathInUse, no field written; OOM => FALSE + NoMemory; else the four fields set, position untouched'),
+                dict(name='ensure_subtree -> find_subtree_recurse', file=OT, status='replaced', note='whole-lookup contract (NULL or THE node of the path) = C20.find + induction on the path length (paper step)'),
+                dict(name='flatten_path', file=OT, status='stub', note='only builds the error text'),
+                dict(name='dbus_set_error/dbus_set_error_const', file='dbus/dbus-errors.c', status='stub', note='records the error name')],
+     assumptions=['find_subtree_recurse(root, path, create) returns NULL or the unique node of `path` (C20.find one level + paper induction)']))
+
+UNITS.append(dict(name='C20.list', props=['C20'], kind='P', route='hybrid', entry='harness',
+     tus=[dict(file=OT, overlay=OVL, include_as='VERIF_TU')], harness='harness/c20_list.c',
+     timeout=600, expect_s=20, must_have=LOOP + ['post1 entry k is the copy of child k', 'post1 NULL-terminated'],
+     functions=[dict(name='_dbus_object_tree_list_registered_unlocked', file=OT, status='enforced', contract='copies the n_subtrees child names in order, NULL-terminated; OOM => NULL and the partial array released; no node => empty listing'),
+                dict(name='_dbus_object_tree_list_registered_and_unlock', file=OT, status='enforced', contract='same result; connection unlocked exactly once after the listing'),
+                dict(name='lookup_subtree -> find_subtree_recurse', file=OT, status='replaced', note='whole-lookup contract: NULL or THE node of parent_path (C20.find + paper induction)'),
+                dict(name='_dbus_strdup', file='dbus/dbus-internals.c', status='stub', note='NULL or a fresh copy of its argument'),
+                dict(name='dbus_free_string_array', file='dbus/dbus-memory.c', status='stub', note='frees strings and array'),
+                dict(name='_dbus_connection_unlock', file='dbus/dbus-connection.c', status='stub', note='counts unlocks')],
+     assumptions=['find_subtree_recurse(root, path, no-create, plain) returns NULL or the unique node of `path` (C20.find one level + paper induction)',
+                  'n_subtrees <= max_subtrees <= 2^28 (NODE_OK, precondition)', MEM]))
+
+UNITS.append(dict(name='C20.unreg', props=['C20'], kind='P', route='hybrid', entry='harness',
+     tus=[dict(file=OT, overlay=OVL, include_as='VERIF_TU')], harness='harness/c20_unreg.c',
+     replace_calls={'_dbus_object_subtree_unref': 'verif_stub_subtree_unref'},
+     timeout=600, expect_s=60, must_have=LOOP + ['postA handler cleared', 'postB array compacted, order kept', 'postB childless unregistered child removed'],
+     functions=[dict(name='unregister_and_free_path_recurse', file=OT, status='enforced', contract='one trie level: handler cleared at the end of the path; recursion into exactly the child named path[0]; child removed iff found below, pruning not stopped, child childless and unregistered; array compacted in order; not found => nothing changed'),
+                dict(name='unregister_subtree, attempt_child_removal', file=OT, status='inlined', note='real code, loop-free'),
+                dict(name='unregister_and_free_path_recurse (recursive call)', file=OT, status='replaced', note='own one-level contract; induction over the path length is a paper step'),
+                dict(name='strcmp', file='libc', status='stub', note='abstract strict total order, sign fixed by the cut of the sorted array'),
+                dict(name='memmove', file='libc', status='stub', note='contract stated for the ghost index (dest[k] == old src[k], rest of the array havocked)'),
+                dict(name='_dbus_object_subtree_unref', file=OT, status='replaced', note='releases one reference; real body in C20.unref')],
+     assumptions=['NODE_OK(node) (precondition), children strictly sorted by name (cut c / present), n_subtrees <= max_subtrees <= 2^28',
+                  'tree invariant (precondition): an unregistered node other than the root has children; an unregistered node has no unregister function / user data; child.parent == node',
+                  MEM]))
+
+UNITS.append(dict(name='C20.unregtop', props=['C20'], kind='P', route='stub', entry='harness',
+     tus=[dict(file=OT, include_as='VERIF_TU')], harness='harness/c20_unregtop.c', timeout=300, expect_s=5,
+     must_have=['post the unregister function runs exactly once', 'post it runs after the unlock'],
+     functions=[dict(name='_dbus_object_tree_unregister_and_unlock', file=OT, status='enforced', contract='one walk; unregister function exactly once iff found, after unlock, with its user data; ref/unlock/unref bracket'),
+                dict(name='unregister_and_free_path_recurse', file=OT, status='replaced', note='found => outputs set (C20.unreg + paper induction)'),
+                dict(name='_dbus_connection_ref_unlocked/_dbus_connection_unlock/dbus_connection_unref/_dbus_warn', file='dbus/dbus-connection.c', status='stub', note='lock/ref typestate counters')],
+     assumptions=['unregister_and_free_path_recurse(root, path) returns whether a handler was registered at `path` and hands out its unregister function and user data (C20.unreg one level + paper induction)']))
+UNITS.append(dict(name='C20.unref', props=['C20'], kind='P', route='stub', entry='harness',
+     tus=[dict(file=OT, include_as='VERIF_TU')], harness='harness/c20_unref.c', timeout=300, expect_s=5,
+     must_have=['one reference released'],
+     functions=[dict(name='_dbus_object_subtree_unref/_dbus_object_subtree_ref', file=OT, status='enforced', contract='refcount +-1; last unref frees node and array; library assertions hold when a finalized node has no handler')],
+     assumptions=['refcount >= 1; a node whose last reference is dropped has no handler (established by attempt_child_removal / free_subtree_recurse)', MEM]))
+
+UNITS.append(dict(name='C20.dispatch', props=['C20'], kind='B', route='stub', entry='harness',
+     tus=[dict(file=OT, include_as='VERIF_TU'), dict(file='dbus/dbus-list.c')], harness='harness/c20_dispatch.c',
+     replace_calls={'handle_default_introspect_and_unlock': 'verif_stub_default_introspect'},
+     unwind=5, timeout=600, expect_s=60, bounds={'chain_depth': 3, 'handler_list': 3, 'note': 'found node plus at most two ancestors; real dbus-list.c'},
+     must_have=['postD exactly the expected handlers', 'postE found_object'],
+     functions=[dict(name='_dbus_object_tree_dispatch_and_unlock', file=OT, status='bounded', contract='handlers: exact node first, then fallback ancestors, deepest first, until one does not decline; result; found_object; lock alternation; references balanced'),
+                dict(name='find_handler -> find_subtree_recurse', file=OT, status='replaced', note='whole deepest-match contract = C20.find + induction on the path length (paper step)'),
+                dict(name='_dbus_object_subtree_ref/_unref', file=OT, status='inlined', note='real code'),
+                dict(name='_dbus_list_append/_dbus_list_get_first_link/_dbus_list_remove_link', file='dbus/dbus-list.c', status='inlined', note='real code, lists <= 3'),
+                dict(name='handle_default_introspect_and_unlock', file=OT, status='stub', note='needs the lock, releases it, arbitrary result ("built-in Introspect aside")'),
+                dict(name='dbus_message_get_path_decomposed/dbus_free_string_array/_dbus_connection_lock/_unlock', file='dbus', status='stub', note='typestate'),
+                dict(name='_dbus_mem_pool_*/_dbus_lock', file='dbus/dbus-mempool.c', status='assumed', note='pool = malloc of the element size; global lock always granted')],
+     assumptions=['find_subtree_recurse(root, path, deepest-match) returns the node of the path (exact) or the nearest ancestor flagged invoke_as_fallback (C20.find + paper induction)',
+                  'registered handlers return HANDLED, NOT_YET_HANDLED or NEED_MEMORY', MEM]))
